@@ -362,3 +362,184 @@ package keeper
 //@ loop 0 invariant forall(x, uint64, forall(t, Time, (VestingQueue[x][t].present && !old(VestingQueue[x][t]).present ==> x == auction.Id && exists(j, int, 0 <= j && j < idx && auction.VestingSchedules[j].ReleaseTime == t)) && (old(VestingQueue[x][t]).present ==> VestingQueue[x][t] == old(VestingQueue[x][t]))))
 //@ loop 0 invariant Auction == old(Auction) && sameExcept(auction, old(auction), Status) && auction.Status == old(auction.Status) && Bal == Bal_at_loop && ExternOK
 //@ loop 0 let Bal_at_loop = Bal
+
+// RefundRemainingSellingCoin (C01, C02): the whole selling escrow balance goes back to the auctioneer.
+//@ func (Keeper).RefundRemainingSellingCoin
+//@ requires auctionFieldsWF(auction, auction.Id)
+//@ modifies Bal, XferN, XferT
+//@ ensures [C01,C02] selling-escrow-emptied-into-the-auctioneer: result == nil ==> let(sd, auction.SellingCoin.Denom, bal(sellEsc(auction.Id), sd) == 0 && bal(addrOf(auction.Auctioneer), sd) == old(bal(addrOf(auction.Auctioneer), sd)) + old(bal(sellEsc(auction.Id), sd)))
+//@ ensures [C02,C19] no-other-balance-moves: forall(ad, Addr, forall(d, string, d != auction.SellingCoin.Denom || (ad != sellEsc(auction.Id) && ad != addrOf(auction.Auctioneer)) ==> bal(ad, d) == old(bal(ad, d))))
+//@ ensures [C07] fails-only-if-the-bank-refuses: ExternOK ==> result == nil
+//@ ensures result != nil ==> Bal == old(Bal)
+
+// ReleaseVestingPayingCoin (C09, C08, C16): every due, unreleased instalment is paid once to the auctioneer and flagged
+// released; the auction finishes when the last instalment (in release order) is released.
+//@ func (Keeper).ReleaseVestingPayingCoin
+//@ requires auctionFieldsWF(auction, auction.Id) && auction.Id < 18446744073709551616
+//@ requires auction.Status == AuctionStatusVesting
+//@ requires forall(t, Time, let(q, VestingQueue[auction.Id][t], q.present ==> q.AuctionId == auction.Id && q.ReleaseTime == t && q.PayingCoin.Amount >= 0 && validDenom(q.PayingCoin.Denom)))
+//@ modifies Auction, VestingQueue, Bal, SetT, XferN, XferT, *auction
+//@ ensures [C09,C16] due-instalments-are-released-others-untouched: result == nil ==> let(dom, old(domOf(VestingQueue, auction.Id)), forall(j, int, 0 <= j && j < ilistN(dom) ==> let(t, ilistKey(dom, j), let(q, old(VestingQueue[auction.Id][t]), ite(t <= BlockTime && !q.Released, VestingQueue[auction.Id][t].Released && sameExcept(VestingQueue[auction.Id][t], q, Released), VestingQueue[auction.Id][t] == q)))))
+//@ ensures [C09,C02] auctioneer-is-paid-exactly-the-due-instalments: result == nil ==> let(pd, auction.PayingCoinDenom, let(dom, old(domOf(VestingQueue, auction.Id)), bal(addrOf(auction.Auctioneer), pd) == old(bal(addrOf(auction.Auctioneer), pd)) + sum(j, 0, ilistN(dom), ite(ilistKey(dom, j) <= BlockTime && !old(VestingQueue[auction.Id][ilistKey(dom, j)]).Released && old(VestingQueue[auction.Id][ilistKey(dom, j)]).PayingCoin.Denom == pd, old(VestingQueue[auction.Id][ilistKey(dom, j)]).PayingCoin.Amount, 0))))
+//@ ensures [C09,C19] no-instalment-created-or-removed: forall(x, uint64, forall(t, Time, VestingQueue[x][t].present == old(VestingQueue[x][t]).present && (x != auction.Id ==> VestingQueue[x][t] == old(VestingQueue[x][t]))))
+//@ ensures [C08,C09] finishes-exactly-when-the-last-instalment-is-released-now: result == nil ==> let(dom, old(domOf(VestingQueue, auction.Id)), let(n, ilistN(dom), auction.Status == ite(n > 0 && ilistKey(dom, n - 1) <= BlockTime && !old(VestingQueue[auction.Id][ilistKey(dom, n - 1)]).Released, AuctionStatusFinished, old(auction.Status))))
+//@ ensures [C19,C08] only-the-status-of-this-auction-changes: sameExcept(auction, old(auction), Status) && forall(x, uint64, x != auction.Id ==> Auction[x] == old(Auction[x]))
+//@ ensures [C08,C16] record-follows-the-object: result == nil && auction.Status != old(auction.Status) ==> Auction[auction.Id].present && Auction[auction.Id].Status == AuctionStatusFinished && sameExcept(Auction[auction.Id], auction, Kind)
+//@ ensures [C08] record-untouched-otherwise: auction.Status == old(auction.Status) ==> Auction == old(Auction)
+//@ loop 0 let DOM = domOf(VestingQueue, auction.Id)
+//@ loop 0 let VQ0 = VestingQueue
+//@ loop 0 invariant 0 <= idx && idx <= len(vestingQueues) && vestingQueuesLen == len(vestingQueues) && len(vestingQueues) == ilistN(DOM) && ExternOK
+//@ loop 0 invariant forall(j, int, 0 <= j && j < len(vestingQueues) ==> vestingQueues[j] == old(VestingQueue[auction.Id][ilistKey(DOM, j)]))
+//@ loop 0 invariant forall(x, uint64, forall(t, Time, VestingQueue[x][t].present == old(VestingQueue[x][t]).present && (x != auction.Id ==> VestingQueue[x][t] == old(VestingQueue[x][t]))))
+//@ loop 0 invariant forall(j, int, 0 <= j && j < len(vestingQueues) ==> let(t, ilistKey(DOM, j), let(q, old(VestingQueue[auction.Id][t]), ite(j < idx && t <= BlockTime && !q.Released, VestingQueue[auction.Id][t].Released && sameExcept(VestingQueue[auction.Id][t], q, Released), VestingQueue[auction.Id][t] == q))))
+//@ loop 0 invariant let(pd, auction.PayingCoinDenom, bal(addrOf(auction.Auctioneer), pd) == old(bal(addrOf(auction.Auctioneer), pd)) + sum(j, 0, idx, ite(ilistKey(DOM, j) <= BlockTime && !old(VestingQueue[auction.Id][ilistKey(DOM, j)]).Released && old(VestingQueue[auction.Id][ilistKey(DOM, j)]).PayingCoin.Denom == pd, old(VestingQueue[auction.Id][ilistKey(DOM, j)]).PayingCoin.Amount, 0)))
+//@ loop 0 invariant sameExcept(auction, old(auction), Status) && forall(x, uint64, x != auction.Id ==> Auction[x] == old(Auction[x]))
+//@ loop 0 invariant auction.Status == ite(idx == len(vestingQueues) && idx > 0 && ilistKey(DOM, idx - 1) <= BlockTime && !old(VestingQueue[auction.Id][ilistKey(DOM, idx - 1)]).Released, AuctionStatusFinished, old(auction.Status))
+//@ loop 0 invariant ite(auction.Status != old(auction.Status), Auction[auction.Id].present && Auction[auction.Id].Status == AuctionStatusFinished && sameExcept(Auction[auction.Id], auction, Kind), Auction == old(Auction))
+
+// ExtendRound (C13): appends exactly one end time, one configured period (in days) after the last one.
+//@ func (Keeper).ExtendRound
+//@ requires len(ba.EndTimes) >= 1 && Params.present && ba.Id < 18446744073709551616
+//@ modifies Auction, SetT, *ba
+//@ ensures [C13] appends-last-end-plus-period: result == nil ==> len(ba.EndTimes) == old(len(ba.EndTimes)) + 1 && ba.EndTimes[len(ba.EndTimes)-1] == addDays(old(ba.EndTimes[len(ba.EndTimes)-1]), Params.ExtendedPeriod) && forall(j, int, 0 <= j && j < old(len(ba.EndTimes)) ==> ba.EndTimes[j] == old(ba.EndTimes[j]))
+//@ ensures [C13,C19] nothing-else-changes: sameExcept(ba, old(ba), EndTimes) && forall(x, uint64, x != ba.Id ==> Auction[x] == old(Auction[x]))
+//@ ensures [C13,C16] record-written: result == nil ==> Auction[ba.Id].present && Auction[ba.Id].Kind == KindBatch && sameExcept(Auction[ba.Id], ba, Kind, RemainingSellingCoin)
+//@ ensures [C07] never-fails: result == nil
+
+// CalculateFixedPriceAllocation (C05, C06): every stored bid is allocated its full converted amount.
+//@ func (Keeper).CalculateFixedPriceAllocation
+//@ requires auctionFieldsWF(auction, auction.Id) && InvBidsWF() && 0 <= BidSeq[auction.Id] && dense1(domOf(Bid, auction.Id), BidSeq[auction.Id])
+//@ ensures [C05,C06,C07] never-fails: result1 == nil
+//@ ensures [C06,C16] price-and-count: result0.MatchedPrice == auction.StartPrice && result0.MatchedLen == BidSeq[auction.Id]
+//@ ensures [C05,C06] total-is-the-sum-of-all-bids: result0.TotalMatchedAmount == sumSell(auction.Id, auction.PayingCoinDenom)
+//@ ensures [C05,C06] each-bidder-gets-the-sum-of-their-bids: forall(w, string, ite(has(result0.AllocationMap, w), result0.AllocationMap[w] == sumSellBy(auction.Id, w, auction.PayingCoinDenom), sumSellBy(auction.Id, w, auction.PayingCoinDenom) == 0))
+//@ ensures [C07] allocation-keys-are-bidders: forall(w, string, has(result0.AllocationMap, w) ==> validAddr(w) && !isEscrow(addrOf(w)) && AllowedBidder[auction.Id][addrOf(w)].present && result0.AllocationMap[w] >= 0)
+//@ loop 0 invariant 0 <= idx && idx <= len(bids) && mInfo.MatchedPrice == auction.StartPrice && mInfo.MatchedLen == idx
+//@ loop 0 invariant len(bids) == BidSeq[auction.Id] && forall(j, int, 0 <= j && j < len(bids) ==> bids[j] == Bid[auction.Id][j+1])
+//@ loop 0 invariant mInfo.TotalMatchedAmount == sum(j, 0, idx, sellOf(Bid[auction.Id][j+1], auction.PayingCoinDenom))
+//@ loop 0 invariant forall(w, string, ite(has(mInfo.AllocationMap, w), mInfo.AllocationMap[w] == sum(j, 0, idx, ite(Bid[auction.Id][j+1].Bidder == w, sellOf(Bid[auction.Id][j+1], auction.PayingCoinDenom), 0)), sum(j, 0, idx, ite(Bid[auction.Id][j+1].Bidder == w, sellOf(Bid[auction.Id][j+1], auction.PayingCoinDenom), 0)) == 0))
+//@ loop 0 invariant forall(w, string, has(mInfo.AllocationMap, w) ==> validAddr(w) && !isEscrow(addrOf(w)) && AllowedBidder[auction.Id][addrOf(w)].present && mInfo.AllocationMap[w] >= 0)
+
+// AllocateSellingCoin / RefundPayingCoin (C02, C14, C17): every bidder in the map receives exactly their amount from the
+// respective escrow; the hook can veto before any transfer.
+//@ func (Keeper).AllocateSellingCoin
+//@ trusted interface contract: the body (three loops over a Go map, a sorted key slice and a map of transfers) is not yet verified against it
+//@ requires auctionFieldsWF(auction, auction.Id)
+//@ requires forall(w, string, has(mInfo.AllocationMap, w) ==> validAddr(w) && mInfo.AllocationMap[w] >= 0 && !isEscrow(addrOf(w)))
+//@ modifies Bal, HookN, HookT, XferN, XferT
+//@ ensures [C02] each-bidder-receives-their-allocation: result == nil ==> forall(w, string, has(mInfo.AllocationMap, w) ==> bal(addrOf(w), auction.SellingCoin.Denom) == old(bal(addrOf(w), auction.SellingCoin.Denom)) + mInfo.AllocationMap[w])
+//@ ensures [C02,C19] nobody-else-is-touched: forall(ad, Addr, forall(d, string, d != auction.SellingCoin.Denom || (ad != sellEsc(auction.Id) && !has(mInfo.AllocationMap, strOf(ad))) ==> bal(ad, d) == old(bal(ad, d))))
+//@ ensures [C02] escrow-only-decreases: bal(sellEsc(auction.Id), auction.SellingCoin.Denom) <= old(bal(sellEsc(auction.Id), auction.SellingCoin.Denom))
+//@ ensures [C17] hook-can-veto-before-any-transfer: !HookOK ==> result != nil && Bal == old(Bal)
+//@ ensures [C17] hook-fired-once: k.hooks != nil ==> hookN("BeforeSellingCoinsAllocated") == old(hookN("BeforeSellingCoinsAllocated")) + 1
+
+//@ func (Keeper).RefundPayingCoin
+//@ trusted interface contract: the body is not yet verified against it
+//@ requires auctionFieldsWF(auction, auction.Id)
+//@ requires forall(w, string, has(mInfo.RefundMap, w) ==> validAddr(w) && mInfo.RefundMap[w] >= 0 && !isEscrow(addrOf(w)))
+//@ modifies Bal, XferN, XferT
+//@ ensures [C02] each-bidder-receives-their-refund: result == nil ==> forall(w, string, has(mInfo.RefundMap, w) ==> bal(addrOf(w), auction.PayingCoinDenom) == old(bal(addrOf(w), auction.PayingCoinDenom)) + mInfo.RefundMap[w])
+//@ ensures [C02,C19] nobody-else-is-touched: forall(ad, Addr, forall(d, string, d != auction.PayingCoinDenom || (ad != payEsc(auction.Id) && !has(mInfo.RefundMap, strOf(ad))) ==> bal(ad, d) == old(bal(ad, d))))
+//@ ensures [C02] escrow-only-decreases: bal(payEsc(auction.Id), auction.PayingCoinDenom) <= old(bal(payEsc(auction.Id), auction.PayingCoinDenom))
+
+// CalculateBatchAllocation: interface contract (the matching itself is specified on types.Match).
+//@ func (Keeper).CalculateBatchAllocation
+//@ trusted interface contract: the body (sort.Search over a closure, several map loops) is not yet verified against it
+//@ requires auctionFieldsWF(auction, auction.Id) && auction.Kind == KindBatch && InvBidsWF() && 0 <= BidSeq[auction.Id] && dense1(domOf(Bid, auction.Id), BidSeq[auction.Id])
+//@ modifies Bid, MatchedBidsLen, SetT
+//@ ensures [C13] records-the-matched-length: result1 == nil ==> result0.MatchedLen >= 0 && MatchedBidsLen[auction.Id].present && MatchedBidsLen[auction.Id] == result0.MatchedLen
+//@ ensures [C13,C19] other-matched-lengths-untouched: forall(x, uint64, x != auction.Id ==> MatchedBidsLen[x] == old(MatchedBidsLen[x]))
+//@ ensures [C11,C19,C16] only-matched-flags-of-this-auction-change: forall(a, uint64, forall(i, uint64, Bid[a][i].present == old(Bid[a][i]).present && ite(a == auction.Id, sameExcept(Bid[a][i], old(Bid[a][i]), IsMatched), Bid[a][i] == old(Bid[a][i]))))
+//@ ensures [C04,C07] maps-are-keyed-by-bidders-with-non-negative-amounts: result1 == nil ==> result0.TotalMatchedAmount >= 0 && forall(w, string, (has(result0.AllocationMap, w) ==> validAddr(w) && !isEscrow(addrOf(w)) && result0.AllocationMap[w] >= 0) && (has(result0.RefundMap, w) ==> validAddr(w) && !isEscrow(addrOf(w)) && result0.RefundMap[w] >= 0))
+
+// CloseFixedPriceAuction (C02, C08, C05): allocate, return the unsold remainder, settle the proceeds.
+//@ func (Keeper).CloseFixedPriceAuction
+//@ requires auctionFieldsWF(auction, auction.Id) && auction.Kind == KindFixed && auction.Id < 18446744073709551616
+//@ requires InvBidsWF() && 0 <= BidSeq[auction.Id] && dense1(domOf(Bid, auction.Id), BidSeq[auction.Id])
+//@ requires forall(t, Time, !VestingQueue[auction.Id][t].present)
+//@ modifies Auction, VestingQueue, Bal, HookN, HookT, SetT, XferN, XferT, *auction
+//@ ensures [C08] settles-to-vesting-or-finished: result == nil ==> auction.Status == ite(len(auction.VestingSchedules) == 0, AuctionStatusFinished, AuctionStatusVesting) && Auction[auction.Id].present && Auction[auction.Id].Status == auction.Status && sameExcept(Auction[auction.Id], auction, Kind)
+//@ ensures [C01,C02] escrows-drained: result == nil ==> bal(sellEsc(auction.Id), auction.SellingCoin.Denom) == 0 && bal(payEsc(auction.Id), auction.PayingCoinDenom) == 0
+//@ ensures [C02,C05] each-bidder-receives-the-sum-of-their-bids: result == nil ==> forall(w, string, sumSellBy(auction.Id, w, auction.PayingCoinDenom) > 0 ==> bal(addrOf(w), auction.SellingCoin.Denom) >= old(bal(addrOf(w), auction.SellingCoin.Denom)) + sumSellBy(auction.Id, w, auction.PayingCoinDenom))
+//@ ensures [C19,C08] only-the-status-of-this-auction-changes: sameExcept(auction, old(auction), Status) && forall(x, uint64, x != auction.Id ==> Auction[x] == old(Auction[x]))
+//@ ensures [C17,C07] veto-and-failures-are-reported: !HookOK ==> result != nil
+//@ ensures [C19] other-auctions-instalments-untouched: forall(x, uint64, forall(t, Time, x != auction.Id ==> VestingQueue[x][t] == old(VestingQueue[x][t])))
+//@ ensures [C09] own-instalments-are-well-formed: forall(t, Time, let(q, VestingQueue[auction.Id][t], q.present ==> result == nil && q.AuctionId == auction.Id && q.ReleaseTime == t && q.PayingCoin.Amount >= 0 && validDenom(q.PayingCoin.Denom)))
+
+// CloseBatchAuction (C13, C02, C08, C16): the anti-sniping decision, then either one more round or the settlement.
+//@ func (Keeper).CloseBatchAuction
+//@ requires auctionFieldsWF(auction, auction.Id) && auction.Kind == KindBatch && auction.Id < 18446744073709551616 && Params.present && auction.Status == AuctionStatusStarted
+//@ requires InvBidsWF() && 0 <= BidSeq[auction.Id] && dense1(domOf(Bid, auction.Id), BidSeq[auction.Id])
+//@ requires forall(t, Time, !VestingQueue[auction.Id][t].present)
+//@ requires 0 <= MatchedBidsLen[auction.Id]
+//@ modifies Auction, Bid, MatchedBidsLen, VestingQueue, Bal, HookN, HookT, SetT, XferN, XferT, *auction
+//@ ensures [C13] settles-when-no-round-is-left: result == nil && old(len(auction.EndTimes)) == auction.MaxExtendedRound + 1 ==> auction.Status != AuctionStatusStarted && len(auction.EndTimes) == old(len(auction.EndTimes))
+//@ ensures [C13] extends-when-there-was-nothing-to-compare-with: result == nil && old(len(auction.EndTimes)) != auction.MaxExtendedRound + 1 && old(MatchedBidsLen[auction.Id]) == 0 ==> len(auction.EndTimes) == old(len(auction.EndTimes)) + 1 && auction.Status == AuctionStatusStarted
+//@ ensures [C13] anti-sniping-rule-as-computed: result == nil && old(len(auction.EndTimes)) != auction.MaxExtendedRound + 1 && old(MatchedBidsLen[auction.Id]) > 0 ==> (len(auction.EndTimes) == old(len(auction.EndTimes)) + 1) == (S - decQuo(MatchedBidsLen[auction.Id] * S, old(MatchedBidsLen[auction.Id]) * S) >= auction.ExtendedRoundRate)
+//@ ensures [C13] an-extension-appends-one-period-and-moves-no-coins: result == nil && len(auction.EndTimes) != old(len(auction.EndTimes)) ==> len(auction.EndTimes) == old(len(auction.EndTimes)) + 1 && auction.EndTimes[len(auction.EndTimes)-1] == addDays(old(auction.EndTimes[len(auction.EndTimes)-1]), Params.ExtendedPeriod) && auction.Status == AuctionStatusStarted && Bal == old(Bal) && VestingQueue == old(VestingQueue)
+//@ ensures [C13,C08] otherwise-it-settles: result == nil && len(auction.EndTimes) == old(len(auction.EndTimes)) ==> auction.Status == ite(len(auction.VestingSchedules) == 0, AuctionStatusFinished, AuctionStatusVesting)
+//@ ensures [C01,C02] settlement-drains-the-escrows: result == nil && len(auction.EndTimes) == old(len(auction.EndTimes)) ==> bal(sellEsc(auction.Id), auction.SellingCoin.Denom) == 0 && bal(payEsc(auction.Id), auction.PayingCoinDenom) == 0
+//@ ensures [C13] matched-length-recorded-for-the-next-comparison: result == nil ==> MatchedBidsLen[auction.Id].present && MatchedBidsLen[auction.Id] >= 0
+//@ ensures [C19] other-auctions-untouched: forall(x, uint64, x != auction.Id ==> Auction[x] == old(Auction[x]) && MatchedBidsLen[x] == old(MatchedBidsLen[x]))
+//@ ensures [C19] other-auctions-instalments-untouched: forall(x, uint64, forall(t, Time, x != auction.Id ==> VestingQueue[x][t] == old(VestingQueue[x][t])))
+//@ ensures [C09] own-instalments-are-well-formed: forall(t, Time, let(q, VestingQueue[auction.Id][t], q.present ==> result == nil && q.AuctionId == auction.Id && q.ReleaseTime == t && q.PayingCoin.Amount >= 0 && validDenom(q.PayingCoin.Denom)))
+//@ ensures [C11,C19,C16] only-matched-flags-of-this-auction-change: forall(a, uint64, forall(i, uint64, Bid[a][i].present == old(Bid[a][i]).present && ite(a == auction.Id, sameExcept(Bid[a][i], old(Bid[a][i]), IsMatched), Bid[a][i] == old(Bid[a][i]))))
+//@ ensures [C19,C16] only-status-end-times-and-matched-price-change: sameExcept(auction, old(auction), Status, EndTimes, MatchedPrice)
+//@ ensures [C08,C16] record-follows-the-object: result == nil ==> Auction[auction.Id].present && Auction[auction.Id].Status == auction.Status && sameExcept(Auction[auction.Id], auction, Kind, RemainingSellingCoin)
+
+// Per-status block processing (C08, C07).
+//@ func (Keeper).ExecuteStandByStatus
+//@ requires auctionFieldsWF(auction, auction.Id) && auction.Status == AuctionStatusStandBy && auction.Id < 18446744073709551616
+//@ modifies Auction, SetT, *auction
+//@ ensures [C08] opens-exactly-when-the-start-time-is-reached: auction.Status == ite(auction.StartTime <= BlockTime, AuctionStatusStarted, AuctionStatusStandBy)
+//@ ensures [C08,C16] record-follows-the-object: auction.Status == AuctionStatusStarted ==> Auction[auction.Id].present && Auction[auction.Id].Status == AuctionStatusStarted && sameExcept(Auction[auction.Id], auction, Kind)
+//@ ensures [C08,C19] nothing-else-changes: sameExcept(auction, old(auction), Status) && forall(x, uint64, x != auction.Id ==> Auction[x] == old(Auction[x])) && (auction.Status == AuctionStatusStandBy ==> Auction == old(Auction))
+//@ ensures [C07] never-fails: result == nil
+
+//@ func (Keeper).ExecuteStartedStatus
+//@ requires auctionFieldsWF(auction, auction.Id) && auction.Status == AuctionStatusStarted && auction.Id < 18446744073709551616 && Params.present
+//@ requires InvBidsWF() && 0 <= BidSeq[auction.Id] && dense1(domOf(Bid, auction.Id), BidSeq[auction.Id])
+//@ requires forall(t, Time, !VestingQueue[auction.Id][t].present) && 0 <= MatchedBidsLen[auction.Id]
+//@ modifies Auction, Bid, MatchedBidsLen, VestingQueue, Bal, HookN, HookT, SetT, XferN, XferT, *auction
+//@ ensures [C08] untouched-before-the-end-time: old(auction.EndTimes[len(auction.EndTimes)-1]) > BlockTime ==> result == nil && Auction == old(Auction) && Bid == old(Bid) && Bal == old(Bal) && VestingQueue == old(VestingQueue) && MatchedBidsLen == old(MatchedBidsLen) && auction.Status == AuctionStatusStarted
+//@ ensures [C08,C13] settles-or-extends-at-the-end-time: result == nil && old(auction.EndTimes[len(auction.EndTimes)-1]) <= BlockTime ==> (auction.Status == ite(len(auction.VestingSchedules) == 0, AuctionStatusFinished, AuctionStatusVesting) && len(auction.EndTimes) == old(len(auction.EndTimes))) || (auction.Kind == KindBatch && auction.Status == AuctionStatusStarted && len(auction.EndTimes) == old(len(auction.EndTimes)) + 1)
+//@ ensures [C19] other-auctions-untouched: forall(x, uint64, x != auction.Id ==> Auction[x] == old(Auction[x]) && MatchedBidsLen[x] == old(MatchedBidsLen[x]))
+//@ ensures [C19] terms-unchanged: sameExcept(auction, old(auction), Status, EndTimes, MatchedPrice)
+//@ ensures [C19] other-auctions-instalments-untouched: forall(x, uint64, forall(t, Time, x != auction.Id ==> VestingQueue[x][t] == old(VestingQueue[x][t])))
+//@ ensures [C09] own-instalments-are-well-formed: forall(t, Time, let(q, VestingQueue[auction.Id][t], q.present ==> result == nil && q.AuctionId == auction.Id && q.ReleaseTime == t && q.PayingCoin.Amount >= 0 && validDenom(q.PayingCoin.Denom)))
+//@ ensures [C11,C19,C16] only-matched-flags-of-this-auction-change: forall(a, uint64, forall(i, uint64, Bid[a][i].present == old(Bid[a][i]).present && ite(a == auction.Id, sameExcept(Bid[a][i], old(Bid[a][i]), IsMatched), Bid[a][i] == old(Bid[a][i]))))
+//@ ensures [C13] matched-length-stays-non-negative: result == nil ==> 0 <= MatchedBidsLen[auction.Id]
+//@ ensures [C08,C16] record-follows-the-object: result == nil && (auction.Status != AuctionStatusStarted || len(auction.EndTimes) != old(len(auction.EndTimes))) ==> Auction[auction.Id].present && Auction[auction.Id].Status == auction.Status && sameExcept(Auction[auction.Id], auction, Kind, RemainingSellingCoin)
+
+//@ func (Keeper).ExecuteVestingStatus
+//@ requires auctionFieldsWF(auction, auction.Id) && auction.Id < 18446744073709551616 && auction.Status == AuctionStatusVesting
+//@ requires forall(t, Time, let(q, VestingQueue[auction.Id][t], q.present ==> q.AuctionId == auction.Id && q.ReleaseTime == t && q.PayingCoin.Amount >= 0 && validDenom(q.PayingCoin.Denom)))
+//@ modifies Auction, VestingQueue, Bal, SetT, XferN, XferT, *auction
+//@ ensures [C08,C09] finishes-exactly-when-the-last-instalment-is-released-now: result == nil ==> let(dom, old(domOf(VestingQueue, auction.Id)), let(n, ilistN(dom), auction.Status == ite(n > 0 && ilistKey(dom, n - 1) <= BlockTime && !old(VestingQueue[auction.Id][ilistKey(dom, n - 1)]).Released, AuctionStatusFinished, AuctionStatusVesting)))
+//@ ensures [C19] other-auctions-untouched: forall(x, uint64, x != auction.Id ==> Auction[x] == old(Auction[x])) && sameExcept(auction, old(auction), Status)
+
+// Auctions: all stored auctions in ascending id order.
+//@ func (Keeper).Auctions
+//@ ensures [C07,C08,C19] exactly-the-stored-auctions-in-id-order: result1 == nil && len(result0) == ilistN(domOf(Auction)) && forall(j, int, 0 <= j && j < len(result0) ==> result0[j] == Auction[ilistKey(domOf(Auction), j)])
+//@ walk 0 invariant len(auctions) == idx && forall(j, int, 0 <= j && j < idx ==> auctions[j] == walkVal(j))
+
+// BeginBlocker (C07, C08, C19): every stored auction is visited once in id order; waiting auctions open when their start
+// time is reached, open ones settle or extend when their current end time is reached, vesting ones release what is due,
+// finished and cancelled ones are left alone; the first failure is returned.
+//@ func (Keeper).BeginBlocker
+//@ requires Inv() && InvVQ() && InvMatched()
+//@ modifies Auction, Bid, MatchedBidsLen, VestingQueue, Bal, HookN, HookT, SetT, XferN, XferT
+//@ ensures [C08] status-moves-only-forward: forall(x, uint64, old(Auction[x]).present ==> Auction[x].present && forward(old(Auction[x]).Status, Auction[x].Status))
+//@ ensures [C08,C12] no-auction-appears-or-disappears: domOf(Auction) == old(domOf(Auction))
+//@ ensures [C08] waiting-auctions-open-exactly-at-their-start-time: result == nil ==> forall(x, uint64, old(Auction[x]).present && old(Auction[x]).Status == AuctionStatusStandBy ==> Auction[x].Status == ite(old(Auction[x]).StartTime <= BlockTime, AuctionStatusStarted, AuctionStatusStandBy))
+//@ ensures [C08] open-auctions-are-untouched-before-their-end-time: result == nil ==> forall(x, uint64, old(Auction[x]).present && old(Auction[x]).Status == AuctionStatusStarted && old(Auction[x]).EndTimes[len(old(Auction[x]).EndTimes)-1] > BlockTime ==> Auction[x] == old(Auction[x]))
+//@ ensures [C08,C13] open-auctions-settle-or-extend-at-their-end-time: result == nil ==> forall(x, uint64, old(Auction[x]).present && old(Auction[x]).Status == AuctionStatusStarted && old(Auction[x]).EndTimes[len(old(Auction[x]).EndTimes)-1] <= BlockTime ==> (Auction[x].Status == ite(len(Auction[x].VestingSchedules) == 0, AuctionStatusFinished, AuctionStatusVesting)) || (Auction[x].Kind == KindBatch && Auction[x].Status == AuctionStatusStarted && len(Auction[x].EndTimes) == len(old(Auction[x]).EndTimes) + 1))
+//@ ensures [C07,C08,C12] finished-and-cancelled-are-permanent-and-harmless: forall(x, uint64, old(Auction[x]).present && (old(Auction[x]).Status == AuctionStatusFinished || old(Auction[x]).Status == AuctionStatusCancelled) ==> Auction[x] == old(Auction[x]))
+//@ ensures [C19] agreed-terms-never-change: forall(x, uint64, old(Auction[x]).present ==> sameExcept(Auction[x], old(Auction[x]), Status, EndTimes, MatchedPrice))
+//@ loop 0 let DOM = domOf(Auction)
+//@ loop 0 invariant 0 <= idx && idx <= len(auctions) && len(auctions) == ilistN(DOM) && domOf(Auction) == DOM && DOM == old(domOf(Auction)) && Params.present
+//@ loop 0 invariant forall(j, int, idx <= j && j < len(auctions) ==> auctions[j] == old(Auction[ilistKey(DOM, j)]) && Auction[ilistKey(DOM, j)] == old(Auction[ilistKey(DOM, j)]))
+//@ loop 0 invariant forall(x, uint64, old(Auction[x]).present ==> Auction[x].present && forward(old(Auction[x]).Status, Auction[x].Status) && sameExcept(Auction[x], old(Auction[x]), Status, EndTimes, MatchedPrice))
+//@ loop 0 invariant forall(j, int, 0 <= j && j < idx ==> let(x, ilistKey(DOM, j), let(o, old(Auction[x]), let(n, Auction[x], (o.Status == AuctionStatusStandBy ==> n.Status == ite(o.StartTime <= BlockTime, AuctionStatusStarted, AuctionStatusStandBy)) && (o.Status == AuctionStatusStarted && o.EndTimes[len(o.EndTimes)-1] > BlockTime ==> n == o) && (o.Status == AuctionStatusStarted && o.EndTimes[len(o.EndTimes)-1] <= BlockTime ==> n.Status == ite(len(n.VestingSchedules) == 0, AuctionStatusFinished, AuctionStatusVesting) || (n.Kind == KindBatch && n.Status == AuctionStatusStarted && len(n.EndTimes) == len(o.EndTimes) + 1)) && ((o.Status == AuctionStatusFinished || o.Status == AuctionStatusCancelled) ==> n == o)))))
+//@ loop 0 invariant InvBidsWF() && forall(a, uint64, 0 <= BidSeq[a] && dense1(domOf(Bid, a), BidSeq[a])) && InvMatched() && BidSeq == old(BidSeq)
+//@ loop 0 invariant forall(j, int, idx <= j && j < len(auctions) ==> let(x, ilistKey(DOM, j), forall(t, Time, VestingQueue[x][t] == old(VestingQueue[x][t]))))
